@@ -108,6 +108,21 @@ TYPES = [
                       F("mr", M(R("Inner")), default='{"k":{"a":3}}'),
                       F("ma", M(A(P("int32"))), default='{"k":[1,2]}'),
                       F("e", R("Color"))]),
+    # APPENDED (not in TOP: only the modes that name them exercise them - c06, c13, cany):
+    # a record made of defaulted fields only (every primitive kind with a NON-ZERO default, non-empty collection defaults) ...
+    record("DIn", [F("b", P("string"), default='"bee"'), F("n", P("int32"), default="7"), F("tags", A(P("string")), default='["t"]'),
+                   F("c", P("string"), True), F("m", M(P("int32")), True), F("k", P("bool"), default="true"),
+                   F("x", P("float64"), default="0.5"), F("l", P("int64"), default="3600"), F("w", M(P("int32")), default='{"a":1}')]),
+    # ... and record-typed defaults whose literal is the EMPTY object (with / without white space), a partial literal, and a literal
+    # that contains an empty object: the default-populated field must carry DIn's own defaults
+    record("DEmp", [F("de", R("DIn"), default="{}"), F("dsp", R("DIn"), default="{ }"), F("dp", R("DIn"), default='{"c":"x","n":8}'),
+                    F("dq", R("DIn"), default='{"c":"y","m":{}}'), F("dz", P("int32"), default="3"),
+                    F("dms", M(P("string")), default='{"k":"v"}'), F("dai", A(P("int32")), default="[4]"),
+                    F("on", R("DIn"), True), F("ol", A(R("DIn")), True)]),
+    # a WIDE record: 70 required fields, 36 of them through an include (required-field bookkeeping must not depend on the count)
+    record("WBase", [F("a%02d" % i, P("string") if i % 9 == 4 else P("int32")) for i in range(36)]),
+    record("Wide", [F("f%02d" % i, P("bool") if i % 8 == 5 else P("int32")) for i in range(34)] +
+           [F("wo", P("int32"), True), F("wi", R("Inner"), True), F("wl", A(R("Inner")), True)], includes=["WBase"]),
 ]
 
 # top-level types the drivers exercise
@@ -331,6 +346,28 @@ RESOURCES = [
     resource([seg("ros", P("int64"))], _ENT,
              _rests(_ENT, ("get", "create", "update", "partial_update", "batch_create", "batch_update", "batch_partial_update")),
              read_only=("id",), create_only=("note",)),
+    # ... every shape of the excluded-field sets over the same record: create-only only, read-only only, none (control), and a
+    # simple resource with create-only fields only (mode c07http of harness/httpdrv derives the expected set per method)
+    resource([seg("cos", P("int64"))], _ENT,
+             _rests(_ENT, ("get", "create", "update", "partial_update", "batch_create", "batch_update", "batch_partial_update")),
+             create_only=("note",)),
+    resource([seg("rds", P("int64"))], _ENT,
+             _rests(_ENT, ("get", "create", "update", "partial_update", "batch_create", "batch_update", "batch_partial_update")),
+             read_only=("id",)),
+    resource([seg("nos", P("int64"))], _ENT,
+             _rests(_ENT, ("get", "create", "update", "partial_update", "batch_create", "batch_update", "batch_partial_update"))),
+    resource([seg("conf")], _ENT, _rests(_ENT, ("get", "update", "partial_update"), simple=True), create_only=("note", "inner")),
+    # keyed segments below keyless ones (the generated UnmarshalResourcePath must index the KEYED segments only): a collection
+    # below a simple parent, a simple resource below that collection, a collection below collection / simple
+    resource([seg("single"), seg("kids", P("int64"))], _INNER,
+             _rests(_INNER, ("get", "create", "update", "delete", "get_all", "batch_get")) + [
+                 finder("byAge", _INNER, [F("age", P("int32"))]),
+                 action("hug", on_entity=True, ret=P("string")), action("count", ret=P("int32"))]),
+    resource([seg("single"), seg("kids", P("int64")), seg("toy")], _INNER,
+             _rests(_INNER, ("get", "update", "delete"), simple=True) + [action("wind")]),
+    resource([seg("strs", P("string")), seg("profile"), seg("items", P("int64"))], _INNER,
+             _rests(_INNER, ("get", "update", "delete", "batch_get")) + [
+                 finder("recent", _INNER, paging=True), action("flag", on_entity=True, params=[F("why", P("string"))])]),
 ]
 
 
